@@ -21,7 +21,8 @@ RULE = (
     "'perturb-all': exhaustive sweep over every message kind x every constrained field (state, perm, rule, switch/light "
     "values of def/one parts and of the top-level oneLight, enableBLOB mode, number text, each required attribute, child "
     "kind, tag) x a replacement catalogue (absent, empty, wrong case, member of another vocabulary, arbitrary text, "
-    "Python-internal looking strings such as module paths, dunder names, class attribute names, None/True); 'perturb': "
+    "Python-internal looking strings such as module paths, dunder names, class attribute names, None/True, a vocabulary member with a "
+    "control character attached) - run in this interpreter and once more in a child interpreter started with -O; 'perturb': "
     "Hypothesis msg_spec with 1-3 random perturbations and a random foreign spelling; 'random-xml': random element trees over "
     "known/unknown tags and attribute names; thorough adds an atheris campaign on the same target. A case is non-trivial "
     "when a constrained field was perturbed or the parser accepted the element; distinct = canonical JSON of the case. "
@@ -264,10 +265,56 @@ def random_xml(draw):
     return {"xml": render(e, gen.Chooser([0])), "perturbed": [1], "labels": ["random-xml"]}
 
 
-SUBCHECKS = {"perturb-all": check_spec, "perturb": check_spec, "random-xml": check_xml, "fuzz": check_xml}
+def replay_optimized(case):
+    """Replay of an 'optimized-interpreter' finding: run the catalogue again in a -O child."""
+    class _C:
+        classes = __import__("collections").Counter()
+        found = None
+
+        def add_violation(self, sub, case_, f):
+            self.found = f
+
+    c = _C()
+    _optimized_child(c)
+    if c.found is not None:
+        raise c.found
+    return Info(nontrivial=True, labels=["python -O child"])
+
+
+SUBCHECKS = {"perturb-all": check_spec, "perturb": check_spec, "random-xml": check_xml, "fuzz": check_xml, "optimized-interpreter": replay_optimized}
+
+
+def _optimized_child(ctx):
+    """The same exhaustive catalogue in a child interpreter started with -O: conformance checks written as `assert` vanish
+    there, and the protocol does not depend on how the interpreter was started."""
+    import os
+    import subprocess
+    import sys
+
+    from harness.core import VERIF
+
+    env = {**os.environ, "VERIF_PYOPT_CHILD": "1"}
+    r = subprocess.run([sys.executable, "-O", "-m", "harness.run", "C13", "--tier", "quick", "--no-evidence", "--shards", "4"],
+                       cwd=VERIF, env=env, capture_output=True, text=True, timeout=1500)
+    first = next((l for l in r.stdout.splitlines() if l.startswith("violation:")), "")
+    if r.returncode == 1:
+        f = Failure("under-python-O:" + (first.split(":", 3)[2] if first.count(":") >= 3 else "violation"), f"in an interpreter started with -O: {first[:600]}")
+        ctx.add_violation("optimized-interpreter", {"note": "run ./check C13 under python -O", "first": first[:600]}, f)
+    elif r.returncode != 0:
+        from harness.core import HarnessError
+
+        raise HarnessError(f"C13 -O child failed (rc {r.returncode}): {r.stdout[-400:]} {r.stderr[-400:]}")
+    ctx.classes["optimized-interpreter:ran"] += 1
 
 
 def run(ctx):
+    import os
+
+    if os.environ.get("VERIF_PYOPT_CHILD") == "1":
+        ctx.each("perturb-all", perturb_all_cases(), check_spec, stop_after=3)
+        return
+    if ctx.shard == 0:
+        _optimized_child(ctx)
     n = ctx.each("perturb-all", perturb_all_cases(), check_spec, stop_after=6)
     ctx.exhaustive["perturb-all"] = {"n_cases": n, "complete": True, "bound": f"{len(ALL_KINDS)} kinds x constrained fields x {len(CATALOGUE)} replacements ({len(KIND_REPLACEMENTS)} for tags)"}
     ctx.hyp("perturb", perturbed_spec(), check_spec, ctx.scale(1000, 15000))
